@@ -249,3 +249,10 @@ def spec_env(repo, code, env=None, module='cooler.util'):
     out = {k: v for k, v in se.env.items() if isinstance(k, str)}
     out['$events'] = se.events
     return out
+
+
+def unobj(t):
+    """Look through the identity wrapper of a mutable literal."""
+    if t[0] == 'call' and t[1] == G('$obj'):
+        return t[2][0]
+    return t
